@@ -1,7 +1,7 @@
 -------------------------------- MODULE JWIT --------------------------------
 (* Judge clauses for C15: a returned simulation run / derivation is a trace and  *)
 (* is validated step by step against the automaton's own step relation.          *)
-EXTENDS Util, FA, PDA
+EXTENDS Util, FA, PDA, NfaSimSteps
 
 BadW(name, cond) == IF cond THEN {name} ELSE {}
 
@@ -31,6 +31,10 @@ JSimFa(e) ==
                \cup BadW("ends_accepting", acc /\ DfaStepsOk(A, e.w, e.run) /\ e.run[Len(e.run)][1] \notin A.F)
           ELSE BadW("none_iff_rejected", e.isnone # ~acc)
                \cup (IF ~e.isnone /\ acc THEN BadW("run_valid", ~ValidFaRun(A, e.w, e.run)) ELSE {})
+               \* binding (not a property clause): the run is a behaviour of NfaSim.tla - its segments are branches of
+               \* search trees rooted in the pre-closure sets T_i, linked by letter moves
+               \cup (IF ~e.isnone /\ acc /\ ValidFaRun(A, e.w, e.run)
+                     THEN BadW("binding_run_is_model_behaviour", ~IsModelRun(A, e.w, e.run)) ELSE {})
 
 (* PDA run: sequence of <<state, unread, stack>>, stack top = last element *)
 PdaStepOk(P, c, d) ==
